@@ -75,7 +75,7 @@ def rand_pair(rng, reject=False):
     ops = []
     nops = 1 if reject else rng.randint(1, 3)
     for _ in range(nops):
-        kind = rng.choice(['root', 'leaf', 'leaf', 'chain', 'ringleaf', 'zeroring'])
+        kind = rng.choice(['root', 'leaf', 'leaf', 'chain', 'ringleaf', 'zeroring', 'zerofirst', 'zerofirst', 'ringleaf_first'])
         if reject:
             kind = rng.choice(['root', 'leaf', 'chainbad', 'chainbad', 'ringbad', 'ringbad'])
         v = nxt
@@ -123,6 +123,41 @@ def rand_pair(rng, reject=False):
             m_children[v] = []
             m_orders[(p, v)] = 0
             m_rings.append((r2, v, 0))
+        elif kind in ('zerofirst', 'ringleaf_first'):
+            # a zero-order ring bond whose marker is written BEFORE an ordinary ring marker on the same node:
+            # `[#A].12…` (the '.' must not leak to marker 2); between real nodes, or to a new virtual leaf
+            order = preorder(m_root, m_children)
+            pos = {u: i for i, u in enumerate(order)}
+            ordinary = [(u, w) for u, w, o in m_rings if o >= 1 and u in real and w in real]
+            if not ordinary:
+                # make an ordinary ring first (in BOTH strings) when the tree allows it
+                cands = [(u, w) for u in real for w in real if pos[u] + 1 < pos[w] and frozenset((u, w)) not in m_adj]
+                if not cands:
+                    continue
+                u, w = rng.choice(cands)
+                rings.append((u, w, 1))
+                m_rings.append((u, w, 1))
+                adjacent.add(frozenset((u, w)))
+                m_adj.add(frozenset((u, w)))
+                ordinary = [(u, w)]
+            u, w = rng.choice(ordinary)
+            a = u if pos[u] < pos[w] else w          # the node that opens the ordinary ring
+            if kind == 'zerofirst':
+                cands = [c for c in real if pos[c] > pos[a] and frozenset((a, c)) not in m_adj]
+                if not cands:
+                    continue
+                c = rng.choice(cands)
+                m_rings.insert(0, (a, c, 0))
+                m_adj.add(frozenset((a, c)))
+                ops.append(kind)
+                continue
+            later = [p for p in real if pos[p] >= pos[a]]
+            p = rng.choice(later)                    # the virtual leaf hangs below a, so a opens its ring bond
+            m_children[p].append(v)
+            m_children[v] = []
+            m_orders[(p, v)] = 0
+            if p != a:
+                m_rings.insert(0, (a, v, 0))
         elif kind == 'zeroring' and len(real) >= 3:
             a, b = rng.sample(real, 2)
             if frozenset((a, b)) in m_adj:
@@ -145,6 +180,8 @@ def rand_pair(rng, reject=False):
         m_text = '{' + gens.render_base(rng, m_nm, m_ch, m_od, m_rg) + '}'
     except (IndexError, KeyError):
         return None
+    if rng.random() < 0.25:
+        o_text, m_text = pct_markers(o_text), pct_markers(m_text)
     rho = sorted([o_new[x], m_new[x]] for x in real)
     aa = rng.random() < 0.55
     levels = 1
@@ -167,6 +204,26 @@ def rand_pair(rng, reject=False):
             'legacy': rng.random() < 0.6, 'ops': ops,
             'want_o': [o_nm, sorted([sorted(k), o] for k, o in intended_edges(o_ch, o_od, o_rg).items())],
             'want_m': [m_nm, sorted([sorted(k), o] for k, o in intended_edges(m_ch, m_od, m_rg).items())]}
+
+
+def pct_markers(text):
+    """write every one-digit ring marker d as the two-digit marker %1d"""
+    out, depth = '', 0
+    for ch in text:
+        if ch == '[':
+            depth += 1
+        elif ch == ']':
+            depth -= 1
+        if depth == 0 and ch.isdigit():
+            out += '%1' + ch
+        else:
+            out += ch
+    return out
+
+
+def nodes_as_intended(resolver, want):
+    g = resolver.molecule
+    return sorted(g.nodes) == list(range(len(want[0]))) and [g.nodes[k].get('fragname') for k in sorted(g.nodes)] == want[0]
 
 
 def base_as_intended(resolver, want):
@@ -215,6 +272,9 @@ class C11(RS.StepProp):
             {'kind': 0, 'orig': '{[#P][#Q][#P]}' + ml, 'modf': '{[#P][#Q][#P].[#V]}' + ml, 'rho': [[0, 0], [1, 1], [2, 2]], 'aa': True, 'legacy': True, 'level': 0},
             {'kind': 0, 'orig': '{[#P][#Q][#P]}' + ml, 'modf': '{[#P][#Q][#P].[#V]}' + ml, 'rho': [[0, 0], [1, 1], [2, 2]], 'aa': True, 'legacy': True, 'level': 1},
             {'kind': 0, 'orig': '{[#P][#Q]}' + ml, 'modf': '{[#P].([#V])[#Q]}' + ml, 'rho': [[0, 0], [1, 2]], 'aa': True, 'legacy': True, 'level': 1},
+            {'kind': 0, 'orig': '{[#A]1[#B][#A][#B]1}' + cg, 'modf': '{[#A].21[#B][#A]2[#B]1}' + cg, 'rho': [[0, 0], [1, 1], [2, 2], [3, 3]], 'aa': False, 'legacy': True},
+            {'kind': 0, 'orig': '{[#A]%11[#B][#A][#B]%11}' + cg, 'modf': '{[#A].%12%11[#B][#A]%12[#B]%11}' + cg, 'rho': [[0, 0], [1, 1], [2, 2], [3, 3]], 'aa': False, 'legacy': True},
+            {'kind': 0, 'orig': '{[#A]1[#B][#A]1}' + fr, 'modf': '{[#A].21[#B][#A]1.[#V]2}' + fr, 'rho': [[0, 0], [1, 1], [2, 2]], 'aa': True, 'legacy': True},
             {'kind': 1, 'orig': '{[#A][#B]}' + fr, 'modf': '{[#V][#A][#B]}' + fr, 'rho': [[0, 1], [1, 2]], 'aa': True, 'legacy': True},
             {'kind': 1, 'orig': '{[#A][#B]}' + cg, 'modf': '{[#A][#B]=[#V]}' + cg, 'rho': [[0, 0], [1, 1]], 'aa': False, 'legacy': True},
             {'kind': 1, 'orig': '{[#A][#B]}' + cg, 'modf': '{[#A].[#V][#B]}' + cg, 'rho': [[0, 0], [1, 2]], 'aa': False, 'legacy': True},
@@ -248,7 +308,7 @@ class C11(RS.StepProp):
                 except Exception as exc:          # noqa: BLE001
                     self._reccache[key] = [{'skip': 'constructor: ' + type(exc).__name__}]
                 else:
-                    if want is not None and not base_as_intended(r, want):
+                    if want is not None and not (base_as_intended(r, want) if text == case['orig'] else nodes_as_intended(r, want)):
                         self._reccache[key] = [{'skip': 'the reader did not produce the intended base graph'}]
                     else:
                         self._reccache[key] = RS.record_all(r)
